@@ -85,8 +85,8 @@ LeafVals(kind) ==
     [] kind = "any"    -> {V("any", 3, "half", 1), V("any", 9, "big", 1), V("any", 3, "plain", 1), V("any", 1, "bool", 1)}   \* 3.5, 2^53+1, "abc", true
     [] kind = "bool"   -> {V("bool", k, "plain", 1) : k \in {0, 1}}
     [] kind = "string" -> {V("string", k, sh, 1) : k \in {Lo - 1, Lo, 3, Hi, Hi + 1}, sh \in StrShapes}
-                          \cup {V("string", 0, "empty", 1)}
-    [] kind = "bytes"  -> {V("bytes", k, "plain", 1) : k \in {0, Lo - 1, Lo, Hi, Hi + 1}}
+                          \cup {V("string", 0, "empty", 1), V("string", 9, "huge", 1)}        \* huge: 70 000 letters (body only)
+    [] kind = "bytes"  -> {V("bytes", k, "plain", 1) : k \in {0, Lo - 1, Lo, Hi, Hi + 1}} \cup {V("bytes", 9, "huge", 1)}
 
 \* a string shape needs room for its special characters (pcthex needs 3 runes; a space sits in the middle
 \* because HTTP itself strips leading and trailing blanks of header values)
@@ -104,7 +104,7 @@ ValsOf(a) ==
 \* can the caller leave the attribute unset?  (Go: pointer field, nil slice or nil map)
 CanBeAbsent(a) == a.mode = "optional" \/ (a.mode = "required" /\ a.nest \in {"elem", "mapkey", "mapval", "nested"} \cup Deep) \/ (a.mode = "required" /\ a.kind = "bytes")
 \* an empty string cannot be a path segment: the envelope does not send one
-PayloadVals(a) == {v \in ValsOf(a) : ~(a.loc = "path" /\ v.s = "empty")} \cup (IF CanBeAbsent(a) /\ a.nest \notin Whole THEN {Absent} ELSE {})
+PayloadVals(a) == {v \in ValsOf(a) : ~(a.loc = "path" /\ v.s = "empty") /\ (v.s = "huge" => a.loc = "body")} \cup (IF CanBeAbsent(a) /\ a.nest \notin Whole THEN {Absent} ELSE {})
 
 DefaultOf(a) == CASE a.kind = "int" -> V("int", 3, "plain", 1)
                   [] a.kind = "uint" -> V("uint", 3, "plain", 1)
@@ -117,7 +117,7 @@ DefaultOf(a) == CASE a.kind = "int" -> V("int", 3, "plain", 1)
 IsZero(v) == v # Absent /\ v.n = 0 /\ v.s \in {"plain", "empty"} /\ v.cls # "bytes"
 
 \* ---------------------------------------------------------------- the rules (the oracle of C04)
-PatOK(v) == v.s = "plain"                      \* the pattern is ^[a-z]+$ ; every other shape contains a non-letter
+PatOK(v) == v.s \in {"plain", "huge"}                      \* the pattern is ^[a-z]+$ ; every other shape contains a non-letter
 FmtOK(v) == v.s = "plain" /\ v.n = 3           \* the format is "ipv4"-like: only the canonical 3-rune plain token renders as a valid instance
 EnumOK(v) == v.s = "plain" /\ v.n \in {Lo, 3, Hi}
 RuleOK(a, v) ==
